@@ -241,10 +241,12 @@ impl Chunk {
                         if v.is_truthy() { "boolT" } else { "boolF" }
                     } else if v.is_undefined() {
                         "undef"
+                    } else if v.is_f64() {
+                        if v.is_truthy() { "floatT" } else { "floatF" }
                     } else if v.is_truthy() {
-                        "numT"
+                        "intT"
                     } else {
-                        "numF"
+                        "intF"
                     }
                 }
                 _ => "",
